@@ -181,7 +181,7 @@ func fdCount() int {
 	return len(es)
 }
 
-var probeReq = scen.Req{URI: "/probe?a=1", Headers: [][2]string{{"Content-Type", "application/x-www-form-urlencoded"}}, Body: "x=probe-body-1234567890", Status: 200, RespHeaders: [][2]string{{"Content-Type", "text/plain"}}, RespBody: "probe-response"}
+var probeReq = scen.Req{URI: "/probe?a=1", Headers: [][2]string{{"Content-Type", "application/x-www-form-urlencoded"}}, Body: "x=probe1234", Status: 200, RespHeaders: [][2]string{{"Content-Type", "text/plain"}}, RespBody: "probe-response"}
 
 func probeOutcome(w coraza.WAF) string {
 	o := scen.Run(w, probeReq, scen.Options{Vars: true, SkipVars: map[string]bool{"FILES_TMPNAMES": true}})
